@@ -183,3 +183,99 @@ def stream(tier):
     diff(res, ops, impl)
     res.exhaustive = False
     return res
+
+
+# ------------------------------------------------------------------ what the SERVER writes for values that arrived encoded
+import re as _re
+_TOKEN = _re.compile(r"[A-Za-z0-9_.\-~+%]+\Z")
+
+
+def stream_outbound_tokens(tier):
+    """C05 end to end: item names arrive in a SUB request in any standard URL-encoding (java.net.URLEncoder's: '*' literal,
+    '~' escaped, '+' for space; or any other mix of literal and escaped bytes) and come back on every line the server writes
+    about that item (replies, updates, end-of-snapshot, clear-snapshot).  Whatever the request looked like, every token the
+    real DataProviderServer writes is over the property's alphabet and decodes to the value the adapter was given.  The
+    server runs without threads of its own here (recording request manager, pool of one, drained before looking)."""
+    import ari
+    import lightstreamer_adapter.server as S
+    from lightstreamer_adapter.interfaces.data import DataProvider
+    R = C.rng("codec-outbound")
+    res = Result("outbound-token-conformance")
+    n = {"quick": 150, "search": 600, "thorough": 6000}[tier]
+    specials = ["*", "a*b", "quotes *.EUR~spot", "~", "a b", "a+b", "100%", "é*", "item|1", "#", "$", "x#y", "-_.~", "**", " * "]
+    for i in range(n):
+        names = []
+        for _ in range(R.choice([1, 2, 3])):
+            nm = R.choice(specials) if R.random() < 0.5 else rand_string(R)
+            if nm and nm not in names and "\ud800" <= "\ud800" and not any(0xD800 <= ord(c) <= 0xDFFF for c in nm):
+                names.append(nm)
+        if not names:
+            continue
+        lines = []
+
+        class RM:
+            def send_reply(self, rid, body): lines.append(("reply", rid + "|" + body))
+            def send_notify(self, body): lines.append(("notify", body))
+            def change_keep_alive(self, *a, **k): pass
+            def quit(self): pass
+
+        class A(DataProvider):
+            def initialize(self, p, c=None): pass
+            def set_listener(self, l): self.l = l
+            def issnapshot_available(self, item): return R.random() < 0.5
+            def subscribe(self, item):
+                seen.append(item)
+                self.l.update(item, {"f*": item, "g": b"*", "h": None}, True)
+                self.l.end_of_snapshot(item)
+                self.l.clear_snapshot(item)
+                self.l.update(item, {item: "v"}, False)
+            def unsubscribe(self, item): pass
+        seen = []
+        srv = S.DataProviderServer(A(), ("h", 1), keep_alive=0, thread_pool_size=1)
+        srv._request_manager = RM()
+        toks = {}
+        escaped = []
+        try:
+            srv.on_received_request("1|DPI|S|ARI.version|S|1.9.1\r\n")
+            for k, nm in enumerate(names):
+                t = ari.enc_text(nm, R) if R.random() < 0.6 else alt_encoding(R, nm)
+                if "|" in t or "\n" in t or "\r" in t or t in ("#", "$") or t.strip() != t or not t:
+                    t = ari.enc_text(nm)
+                toks[nm] = t
+                srv.on_received_request("s%d|SUB|S|%s\r\n" % (k, t))
+            srv._executor.shutdown(wait=True)
+        except Exception as e:
+            escaped.append(repr(e))
+        finally:
+            srv._executor.shutdown(wait=False)
+        res.traces += 1
+        res.evaluations += len(lines)
+        res.distribution["names_with_star"] += sum("*" in nm for nm in names)
+        res.nontrivial.add(tuple(sorted(toks.items())))
+        inp = {"item_names": names, "request_tokens": toks}
+        if escaped:
+            res.violation("outbound:raises", "handling the requests raised %s" % escaped[0], inp)
+            continue
+        if sorted(seen) != sorted(names):
+            res.violation("outbound:item-name-decoded-wrong", "the adapter was asked to subscribe %r for the requested items %r" % (seen, names), inp)
+            continue
+        for kind, line in lines:
+            parts = line.split("|")
+            if parts[-1][:0] != "" or "\n" in line or "\r" in line:
+                res.violation("outbound:not-one-line", "%r" % line[:120], inp)
+                break
+            # tokens after the head (request id / timestamp and method) are typed values: marker, value, marker, value ...
+            # text tokens are the ones behind an `S` marker (bytes travel as base64 behind `Y`, error texts behind `E…`)
+            bad = [t for j, t in enumerate(parts) if j > 0 and parts[j - 1] == "S" and not (_TOKEN.match(t) or t in ("#", "$"))]
+            if bad:
+                res.violation("outbound:token-alphabet", "line %r carries the token %r, outside A-Za-z0-9_.-~+%% (the request spelt the item %r)" % (
+                    line[:120], bad[0][:60], toks), inp)
+                break
+            if parts[1:2] == ["UD3"] or (kind == "notify" and len(parts) > 2 and parts[1] in ("UD3", "EOS", "CLS")):
+                item_tok = parts[3]
+                if ari.dec_text(item_tok) not in names:
+                    res.violation("outbound:item-does-not-decode", "line %r names %r, none of the subscribed items %r" % (line[:120], ari.dec_text(item_tok), names), inp)
+                    break
+        if i < 2:
+            res.sample({"item_names": names, "request_tokens": toks, "lines": [l for _, l in lines][:6]})
+    return res
